@@ -580,15 +580,18 @@ class PendingAssign(PendingNode[Assign | AnnAssign]):
         return self.nsp.get_assign(target.id, value)
 
     def assign_subscript(self, target: Subscript, value: expr):
-        _slice = utils.convert_index(target.slice)
+        target_value = expr_transf(self.nsp, target.value)
+        # the names of the index are resolved in the namespace first,
+        # `slice` of the converted index is the builtin, not a name of the script
+        _slice = utils.convert_index(expr_transf(self.nsp, target.slice))
 
         return Call(
             func=Attribute(
-                value=expr_transf(self.nsp, target.value),
+                value=target_value,
                 attr="__setitem__",
                 ctx=Load(),
             ),
-            args=[expr_transf(self.nsp, _slice), value],
+            args=[_slice, value],
             keywords=[],
         )
 
@@ -773,13 +776,15 @@ class PendingAugAssign(PendingNode[AugAssign]):
                 )
             )
 
-            slice_expr = utils.convert_index(target.slice)
+            # the names of the index are resolved in the namespace first,
+            # `slice` of the converted index is the builtin, not a name of the script
+            slice_expr = utils.convert_index(expr_transf(self.nsp, target.slice))
 
             # save slice expr to a tmp
             return_list.append(
                 NamedExpr(
                     target=tmp_slice_name,
-                    value=expr_transf(self.nsp, slice_expr),
+                    value=slice_expr,
                 )
             )
 
